@@ -100,8 +100,8 @@ def coq_files():
 
 def coq_makefile():
     th, gen = coq_files()
-    files = [os.path.relpath(f, COQ) for f in th + gen if not f.endswith("Extract.v")
-             and not os.path.basename(f).startswith("Properties_")]
+    files = [os.path.relpath(f, COQ) for f in th + gen
+             if not os.path.basename(f).startswith("Properties_")]
     rc, out, err = run(["coq_makefile", "-f", "_CoqProject", "-o", "Makefile"] + files, cwd=COQ)
     if rc != 0:
         raise RuntimeError("coq_makefile failed: " + err)
@@ -184,12 +184,38 @@ def forbidden_scan():
     return bad
 
 
+def gen_extract_v():
+    """coq/gen/Extract.v is assembled from `(* EXTRACT: a b c *)` markers in
+    theories/*.v (one list per model file)."""
+    mods, names = [], []
+    for f in sorted(glob.glob(os.path.join(COQ, "theories", "*.v"))):
+        txt = open(f).read()
+        found = re.findall(r"\(\*\s*EXTRACT:\s*(.*?)\*\)", txt, re.S)
+        if found:
+            mods.append(os.path.splitext(os.path.basename(f))[0])
+            for blk in found:
+                for n in blk.split():
+                    if n not in names:
+                        names.append(n)
+    text = ("(* generated by harness/vlib.py from EXTRACT markers — do not edit.\n"
+            "   Only ExtrOcamlBasic: bool, option, list, prod, unit, sumbool map to OCaml's\n"
+            "   own types; N, Z, positive and nat stay the Coq inductive datatypes. *)\n"
+            + "".join("Require Import VV.%s.\n" % m for m in mods)
+            + "Require Import ExtrOcamlBasic.\nExtraction Language OCaml.\nSet Extraction Optimize.\n"
+            + 'Extraction "model.ml"\n  ' + "\n  ".join(names) + ".\n")
+    path = os.path.join(COQ, "extract", "Extract.v")
+    os.makedirs(os.path.dirname(path), exist_ok=True)
+    open(path, "w").write(text)
+    return path, names
+
+
 def build_model_driver(timeout=900):
     """Extract the model to OCaml and build the model driver.  Returns path."""
     ex = os.path.join(COQ, "extract")
     os.makedirs(ex, exist_ok=True)
+    gen_extract_v()
     rc, out, err = run(["coqc", "-Q", "../theories", "VV", "-Q", "../gen", "VVgen",
-                        "-w", "-all", "../theories/Extract.v"], cwd=ex, timeout=timeout)
+                        "-w", "-all", "Extract.v"], cwd=ex, timeout=timeout)
     if rc != 0:
         raise RuntimeError("extraction failed: " + err[-2000:])
     mls = sorted(glob.glob(os.path.join(VERIF, "harness", "ml", "*.ml")))
@@ -218,8 +244,7 @@ def coq_setup(need_model=True):
             try:
                 mdrv = build_model_driver()
             except RuntimeError as e:
-                lg += "\n" + str(e)
-                rc = rc or 1
+                raise RuntimeError("model driver cannot be built (Coq build rc=%s):\n%s\n%s" % (rc, lg[-3000:], e))
         return rc == 0, lg, mdrv, facts_info
 
 
@@ -382,18 +407,93 @@ def match_known(known, prop, api, args, ckv):
 
 # ---------------------------------------------------------------- the check runner
 
+class Spec:
+    """Aggregate of every checks/parts/*.py entry for one property."""
+
+    def __init__(self, prop, parts):
+        self.prop = prop
+        self.parts = parts
+        self.COQ_PROPS = []
+        self.ORACLES = {}
+        self.TRUSTED_BASE = []
+        self.ASSUMPTIONS = []
+        self.FILES = []
+        rules = []
+        cq, ct = [], []
+        self.EXTRA_CFLAGS = ""
+        for name, p in parts:
+            for x in p.get("coq_props", []):
+                if x not in self.COQ_PROPS:
+                    self.COQ_PROPS.append(x)
+            for k, v in p.get("oracles", {}).items():
+                if k in self.ORACLES and self.ORACLES[k] is not v:
+                    a, b = self.ORACLES[k], v
+                    self.ORACLES[k] = (lambda a, b: (lambda args, c: a(args, c) or b(args, c)))(a, b)
+                else:
+                    self.ORACLES[k] = v
+            self.TRUSTED_BASE += [t for t in p.get("trusted_base", []) if t not in self.TRUSTED_BASE]
+            self.ASSUMPTIONS += [t for t in p.get("assumptions", []) if t not in self.ASSUMPTIONS]
+            self.FILES += [t for t in p.get("files", []) if t not in self.FILES]
+            if p.get("rule"):
+                rules.append("[%s] %s" % (name, p["rule"]))
+            for c in p.get("configs_quick", ["pinned"]):
+                if c not in cq:
+                    cq.append(c)
+            for c in p.get("configs_thorough", ["pinned", "O0", "asan"]):
+                if c not in ct:
+                    ct.append(c)
+        self.RULE = " ".join(rules)
+        self.CONFIGS_QUICK = cq
+        self.CONFIGS_THOROUGH = ct
+
+    def generate(self, rng, tier):
+        for name, p in self.parts:
+            g = p.get("generate")
+            if g:
+                yield from g(random.Random(rng.getrandbits(48)), tier)
+
+    def classify(self, case, m):
+        for name, p in self.parts:
+            f = p.get("classify")
+            if f:
+                r = f(case, m)
+                if r is not None:
+                    return r
+        return "other"
+
+    def search(self, rng, divergent):
+        for name, p in self.parts:
+            f = p.get("search")
+            if f:
+                yield from f(random.Random(rng.getrandbits(48)), divergent)
+
+
+def load_spec(prop):
+    parts = []
+    only = [x for x in os.environ.get("VERIF_PARTS", "").split(",") if x]
+    for path in sorted(glob.glob(os.path.join(VERIF, "checks", "parts", "*.py"))):
+        name = os.path.splitext(os.path.basename(path))[0]
+        if only and name not in only:
+            continue
+        sp = importlib.util.spec_from_file_location("part_" + name, path)
+        mod = importlib.util.module_from_spec(sp)
+        sp.loader.exec_module(mod)
+        if prop in getattr(mod, "PARTS", {}):
+            parts.append((name, mod.PARTS[prop]))
+    if not parts:
+        raise SystemExit("no checks/parts/*.py entry for property %s" % prop)
+    return Spec(prop, parts)
+
+
 class Check:
-    """One property check.  `spec` is the module checks/Cnn.py."""
+    """One property check; self.spec aggregates checks/parts/*.py."""
 
     def __init__(self, prop, tier, seed):
         self.prop = prop
         self.tier = tier
         self.seed = seed
         self.t0 = time.time()
-        path = os.path.join(VERIF, "checks", prop + ".py")
-        sp = importlib.util.spec_from_file_location("chk_" + prop, path)
-        self.spec = importlib.util.module_from_spec(sp)
-        sp.loader.exec_module(self.spec)
+        self.spec = load_spec(prop)
         self.violations = []     # (kind, api, case, detail)
         self.known_seen = []
         self.notes = []
@@ -500,7 +600,7 @@ class Check:
             raise RuntimeError("model driver failed rc=%s lines=%d/%d: %s" % (mrc, len(mout), len(cases), merr[-2000:]))
         nontrivial = set()
         classes = {}
-        classify = getattr(spec, "classify", None)
+        classify = spec.classify
         for c, mo in zip(cases, mout):
             if classify:
                 cl = classify(c, parse_out(mo)[1])
